@@ -24,12 +24,19 @@ type countingLoader struct {
 	content map[string]int
 	mtime   map[string]int64
 	loads   map[string]int
+	// after: called once when the next Load has read its source, before it returns (a change that races with the call)
+	after func()
 }
 
 func (l *countingLoader) Load(name string) (string, error) {
 	l.loads[name]++
 	if v, ok := l.content[name]; ok && v != 0 {
-		return verSource(name, v), nil
+		src := verSource(name, v)
+		if f := l.after; f != nil {
+			l.after = nil
+			f()
+		}
+		return src, nil
 	}
 	return "", fmt.Errorf("%w: %s", twig.ErrTemplateNotFound, name)
 }
@@ -46,6 +53,7 @@ type fsLoader struct {
 	}
 	dir   string
 	loads map[string]int
+	after func()
 	// compiled: the loader is a CompiledLoader (files hold serialised compiled templates)
 	compiled bool
 }
@@ -80,7 +88,12 @@ func (l *fsLoader) remove(slot int, name string) {
 
 func (l *fsLoader) Load(name string) (string, error) {
 	l.loads[name]++
-	return l.inner.Load(name)
+	src, err := l.inner.Load(name)
+	if f := l.after; f != nil && err == nil {
+		l.after = nil
+		f()
+	}
+	return src, err
 }
 func (l *fsLoader) Exists(name string) bool                    { return l.inner.Exists(name) }
 func (l *fsLoader) GetModifiedTime(name string) (int64, error) { return l.inner.GetModifiedTime(name) }
@@ -105,7 +118,8 @@ type COp struct {
 	I   int    `json:"i"`
 	B   bool   `json:"b"`
 	Mt  int64  `json:"mt"`
-	Of  string `json:"of"` // regalias: the name whose loaded template is registered under N
+	Alt int    `json:"alt"` // renderput: the other version this call may serve
+	Of  string `json:"of"`  // regalias: the name whose loaded template is registered under N
 	Obs CObs   `json:"obs"`
 }
 
@@ -250,6 +264,19 @@ func (w *cacheWorld) apply(op *COp) (served int, msg string) {
 		if err := w.e.RegisterString(op.N, fmt.Sprintf("%s:%d", op.N, op.V)); err != nil {
 			return -2, err.Error()
 		}
+	case "renderput":
+		put := &COp{Op: "put", I: op.I, N: op.N, V: op.V, Mt: op.Mt}
+		fire := func() { w.apply(put) }
+		if w.fs != nil {
+			w.fs.after = fire
+		} else {
+			w.l2.after = fire
+		}
+		served, msg = w.apply(&COp{Op: "render", N: op.N})
+		if w.fs != nil && w.fs.after != nil || w.fs == nil && w.l2.after != nil {
+			return -2, "harness: the render did not read the loader " + msg
+		}
+		return served, msg
 	case "regalias":
 		tm, err := w.e.Load(op.Of)
 		if err != nil {
@@ -361,6 +388,8 @@ func describe(op *COp) string {
 		return fmt.Sprintf("regcompiled(%s,v%d,old=%v)", op.N, op.V, op.B)
 	case "regalias":
 		return fmt.Sprintf("regalias(%s=%s)", op.N, op.Of)
+	case "renderput":
+		return fmt.Sprintf("render(%s) while put(L%d,%s,v%d,mt%d)", op.N, op.I, op.N, op.V, op.Mt)
 	case "put":
 		return fmt.Sprintf("put(L%d,%s,v%d,mt%d)", op.I, op.N, op.V, op.Mt)
 	case "delete":
@@ -402,6 +431,9 @@ func runCacheHist(c *CCase, rec *bufio.Writer, traceNo int) (res Result) {
 			want := op.Obs
 			if c.Chain || c.FSChain {
 				want.Loads = got.Loads
+			}
+			if op.Op == "renderput" && got.Served == op.Alt {
+				want.Served = op.Alt
 			}
 			if op.Op == "render" && want.Served == -3 {
 				open[op.N] = true
